@@ -18,7 +18,9 @@ for d in sorted((VERIF / "seeded").iterdir()):
         for c in meta.get("checks_run", {meta["property"]: 0}):
             rr = subprocess.run([str(VERIF / "check"), c, "quick"], cwd=str(VERIF), env=dict(os.environ, MV_REPO=wt), capture_output=True, text=True, timeout=3000)
             keys = sorted({ln.split("key=")[1].strip() for ln in rr.stdout.splitlines() if ln.startswith("VIOLATION") and "key=" in ln})
-            verdicts[c] = {"rc": rr.returncode, "violation_keys": keys[:8]}
+            import re as _re
+            mm = _re.search(r"violations=(\d+)", rr.stdout)
+            verdicts[c] = {"rc": rr.returncode, "violation_keys": keys[:8], "n_violations": int(mm.group(1)) if mm else None}
         meta["checks_run"] = verdicts
         meta["caught_by"] = [c for c, v in verdicts.items() if v["rc"] == 1]
         (d / "meta.json").write_text(json.dumps(meta, indent=1))
